@@ -5,10 +5,17 @@ _IG = "_integrate_gradient_2d"
 
 SITES = [
     # summands of the two first moments and the complex packing
-    dict(gen="Com", name="comXTerm", file=_MEA, func=_COM, select=("method_base", "sum", 0),
+    dict(gen="Com", name="comXTerm", file=_MEA, func=_COM, select=("method_base", "sum", 1),
          params_map={"array": "a", "x[:, None]": "x"}, params=["a", "x"], modes=["rat"]),
-    dict(gen="Com", name="comYTerm", file=_MEA, func=_COM, select=("method_base", "sum", 1),
+    dict(gen="Com", name="comYTerm", file=_MEA, func=_COM, select=("method_base", "sum", 2),
          params_map={"array": "a", "y[None]": "y"}, params=["a", "y"], modes=["rat"]),
+    # normalisation by the total intensity (fix: center of mass = first moment / total, 0 for empty patterns)
+    dict(gen="Com", name="comTotalGuard", file=_MEA, func=_COM, select=("assign", "total", 1),
+         params_map={"total": "total"}, params=["total"], modes=["rat"]),
+    dict(gen="Com", name="comXDiv", file=_MEA, func=_COM, select=("assign", "com_x", 0),
+         params_map={"(array * x[:, None]).sum(axis=(-2, -1))": "m", "total": "total"}, params=["m", "total"], modes=["rat"]),
+    dict(gen="Com", name="comYDiv", file=_MEA, func=_COM, select=("assign", "com_y", 0),
+         params_map={"(array * y[None]).sum(axis=(-2, -1))": "m", "total": "total"}, params=["m", "total"], modes=["rat"]),
     dict(gen="Com", name="comPack", file=_MEA, func=_COM, select=("assign", "com", 0),
          params_map={"com_x": "cx", "com_y": "cy"}, params=["cx", "cy"], modes=["cplx"]),
     # gradient integration: |k|², the Fourier-space quotient
